@@ -36,10 +36,11 @@ ToSet(s) == {s[i] : i \in DOMAIN s}
    must satisfy |v * ffffffff - num| <= num * 2^-FloatRelBits.
    Justification of the tolerance: palette computes u8 -> f32 as x * (1/255) (two roundings, relative
    error < 2^-23), u16 -> f32 and uN -> f64 as one correctly rounded division (2^-24 resp. 2^-53),
-   u32 -> f32 via f64 (2^-24).  Calibrated on the pinned tree: largest deviation observed 2^-24.0 (f32)
-   and 2^-53.0 (f64); the bounds below leave a factor 8 (f32: 2^-21) and 8 (f64: 2^-50).  How the last
+   u32 -> f32 via f64 (2^-24).  Calibrated on the pinned tree over the 11 690 float channels of the
+   quick tier's recording: largest relative deviation 2^-23.32 (f32, "#a2B3c4" blue) and 2^-53.37 (f64);
+   the bounds below leave a factor 8 over the principled bounds (f32: 2^-20, f64: 2^-50).  How the last
    bit is rounded is C06's subject, not C12's. *)
-FloatRelBits(ty) == IF ty \in {"rgb_f32", "rgba_f32"} THEN 21 ELSE 50
+FloatRelBits(ty) == IF ty \in {"rgb_f32", "rgba_f32"} THEN 20 ELSE 50
 
 RECURSIVE BigOfDigits(_)
 BigOfDigits(d) == IF d = <<>> THEN Zero
